@@ -1,6 +1,6 @@
 """Checks built on the bounded stand-ins ACC / INV / CONST (DESIGN.md 4.5) combined with unit X."""
 import os, json, shutil
-from . import acc, xrun, driver, contracts as C
+from . import acc, xrun, driver, inv, corpus, contracts as C
 from .driver import Outcome, finish, run_x, report_violations
 from .model import *
 
@@ -140,3 +140,81 @@ def check_c10(out: Outcome):
     run_x(out, corpus.all_programs(out.tier, out.seed), "C10", tag="C10c", history=False)
     return finish(out, "translation_validation", RUSTC_CMD + "; accepted enums: " + C_KANI,
                   explanation="bounded accept/reject enumeration against the rule of C10 + Kani proof that every accepted enum's conversions are total and exact")
+
+
+def _inventory(out, prop, progs, tag):
+    """dump + parse the real expansions of `progs`; returns {type name: inventory}"""
+    work = os.path.join(xrun.WORK, tag)
+    os.makedirs(work, exist_ok=True)
+    dumps, errs = xrun.dump_expansions(work, progs)
+    if errs:
+        raise xrun.Infra(f"corpus declarations for {prop} do not compile: " + json.dumps(errs)[:1200])
+    ann = xrun.annotate(work, progs, dumps, {})
+    return work, {t: a[1] for t, a in ann.items()}
+
+
+def _report_inv(out, prop, failures):
+    items = []
+    for ob, detail, p, extra in failures[:12]:
+        items.append({"obligation": ob, "detail": detail, "program_text": p.decl_text(), "verifier_output": extra,
+                      "inputs": None, "src": None, "extra": extra})
+    report_violations_acc(out, items)
+    if len(failures) > 12:
+        out.extra["further_failed_obligations"] = [f[0] for f in failures[12:]]
+
+
+def check_c17(out: Outcome):
+    progs = [p for p in corpus.all_programs(out.tier, out.seed) if "C17" in p.props]
+    work, invs = _inventory(out, "C17", progs, "C17")
+    failures = []
+    for p in progs:
+        for s in p.structs:
+            for name, ok, detail in inv.access_obligations(s, invs[s.name]):
+                out.add_ob(f"C17/inv/{p.pid}/{name}", "inventory", "annotator inventory of the real expansion vs. declaration table", ok)
+                if not ok:
+                    failures.append((f"C17/inv/{p.pid}/{name}", detail, p, {"inventory_of": s.name}))
+            out.unsafe_tokens += invs[s.name]["unsafe_tokens"]
+    uses = [u for p in progs for u in inv.access_use_programs(p)]
+    for u, ok, diag in inv.run_use_programs(work, "use", uses):
+        ob = f"C17/use/{u.pid}/{u.what}"
+        out.add_ob(ob, "must-compile" if u.expect else "must-not-compile", "rustc + real macro", ok)
+        if len(out.samples) < 6:
+            out.samples.append({"program": u.use, "expected": "compiles" if u.expect else "must not compile", "rustc": diag})
+        if not ok:
+            failures.append((ob, f"{u.what}: {diag}", u.base, {"acc_declaration": u.text(), "acc_expect": "accept" if u.expect else "reject",
+                                                             "reproduced_by_compilation": True}))
+    out.programs += len(progs) + len(uses)
+    out.bounded.append(f"C17: inventory and use-programs over {len(progs)} corpus declarations ({len(uses)} must/must-not-compile programs); "
+                       "every field kind (scalar, bool, array, non-contiguous, enum, signed, Option<enum> array) x access in r/w/rw/none")
+    _report_inv(out, "C17", failures)
+    # frame half: read-only bits cannot be changed -- the put_spec frame of every mutating function of these declarations
+    run_x(out, progs, "C17", tag="C17x", history=False)
+    return finish(out, "translation_validation", RUSTC_CMD + "; annotator inventory; frame: " + C_KANI,
+                  explanation="API inventory of the real expansion vs. the table, must/must-not-compile programs, and the Kani-proved frame of every mutator")
+
+
+def check_c14(out: Outcome):
+    progs = [p for p in corpus.all_programs(out.tier, out.seed) if "C14" in p.props]
+    work, invs = _inventory(out, "C14", progs, "C14")
+    failures = []
+    for p in progs:
+        for s in p.structs:
+            for name, ok, detail in inv.builder_obligations(s, invs[s.name]):
+                out.add_ob(f"C14/inv/{p.pid}/{name}", "inventory", "annotator inventory of the real expansion vs. declaration table", ok)
+                if not ok:
+                    failures.append((f"C14/inv/{p.pid}/{name}", detail, p, {"inventory_of": s.name}))
+    uses = [u for p in progs for u in inv.builder_use_programs(p)]
+    for u, ok, diag in inv.run_use_programs(work, "use", uses):
+        ob = f"C14/use/{u.pid}/{u.what}"
+        out.add_ob(ob, "must-compile" if u.expect else "must-not-compile", "rustc + real macro", ok)
+        if len(out.samples) < 6:
+            out.samples.append({"program": u.use, "expected": "compiles" if u.expect else "must not compile", "rustc": diag})
+        if not ok:
+            failures.append((ob, f"{u.what}: {diag}", u.base, {"acc_declaration": u.text(), "acc_expect": "accept" if u.expect else "reject",
+                                                             "reproduced_by_compilation": True}))
+    out.programs += len(progs) + len(uses)
+    out.bounded.append(f"C14: inventory and type-state programs over {len(progs)} corpus declarations ({len(uses)} must/must-not-compile chains: "
+                       "complete chain, every proper prefix, every chain with one step left out, swapped steps, builder() where none may exist)")
+    _report_inv(out, "C14", failures)
+    return finish(out, "translation_validation", RUSTC_CMD + "; annotator inventory",
+                  explanation="builder existence and exact mask chain from the inventory of the real expansion; type-state by programs that must / must not compile")
